@@ -14,7 +14,7 @@ import traceback
 
 from . import speclang
 
-GHOST_NAMES = {"org", "prov", "upd", "Perm", "Follow", "fresh", "same_object_ghost", "ufn", "apply", "SUM", "unit", "chunk_off", "nyielded", "consumed", "nitems", "item", "mapped", "defined_len", "same_object", "field", "fresh", "shares_buffer"}
+GHOST_NAMES = {"org", "prov", "upd", "Perm", "Follow", "fresh", "same_object_ghost", "ufn", "apply", "SUM", "unit", "chunk_off", "nyielded", "consumed", "nitems", "item", "mapped", "defined_len", "field", "fresh"}
 
 
 class Skip(Exception):
@@ -121,7 +121,11 @@ def describe(x, depth=0):
         import numpy as np
         if isinstance(x, np.ndarray):
             if x.size <= 64:
-                return {"ndarray": x.tolist() if x.dtype.names is None else [list(map(_py, r)) for r in x.tolist()],
+                def _rows(v):
+                    if isinstance(v, list):
+                        return [_rows(r) for r in v]
+                    return _py(v)
+                return {"ndarray": _rows(x.tolist()),
                         "dtype": str(x.dtype.descr if x.dtype.names else x.dtype), "shape": list(x.shape)}
             return {"ndarray": "size %d" % x.size, "dtype": str(x.dtype), "shape": list(x.shape)}
         if isinstance(x, np.generic):
@@ -143,8 +147,10 @@ def describe(x, depth=0):
 def _py(v):
     if isinstance(v, bytes):
         return v.decode("latin1")
-    if isinstance(v, tuple):
+    if isinstance(v, (tuple, list)):
         return [_py(x) for x in v]
+    if isinstance(v, complex):
+        return repr(v)
     return v
 
 
